@@ -4761,12 +4761,7 @@ class State:
         if (
                 self.consecutive_all_in_completion_betting_or_raising_amounts
                 and (
-                    sum(
-                        (
-                            self
-                            .consecutive_all_in_completion_betting_or_raising_amounts  # noqa: E501
-                        ),
-                    )
+                    max(self.bets) - self.bets[player_index]
                     < self.completion_betting_or_raising_amount
                 )
                 and player_index in self.acted_player_indices
